@@ -6,7 +6,7 @@ use lumina_node::block_ranges::{BlockRange, BlockRanges};
 use lumina_node::verif::ranges as hook;
 use rand::rngs::StdRng;
 use rand::{Rng, SeedableRng};
-use serde_json::{json, Value};
+use serde_json::json;
 use smallvec::SmallVec;
 
 type R = Vec<(u64, u64)>;
